@@ -120,6 +120,7 @@ const (
 	SSetField = "setfield" // Name.Field = E
 	SIf       = "if"       // if E { Then } else { Else }
 	SFor      = "for"      // for Var := 0; Var < Count; Var++ { Body }
+	SForRange = "forrange" // for Var, Name := range E { Body }  (E an array variable)
 	SReturn   = "return"   // return Es...
 	SCall     = "callstmt" // Names... := Fn(Es...)   (multi-result call)
 )
@@ -296,6 +297,11 @@ func printStmt(sb *strings.Builder, s *Stmt, lvl int) {
 			step = s.Var + " = " + s.Var + " + 1"
 		}
 		fmt.Fprintf(sb, "for %s := 0; %s < %d; %s {\n", s.Var, s.Var, s.Count, step)
+		printStmts(sb, s.Body, lvl+1)
+		indent(sb, lvl)
+		sb.WriteString("}\n")
+	case SForRange:
+		fmt.Fprintf(sb, "for %s, %s := range %s {\n", s.Var, s.Name, s.E)
 		printStmts(sb, s.Body, lvl+1)
 		indent(sb, lvl)
 		sb.WriteString("}\n")
